@@ -185,6 +185,33 @@ def run(ctx):
                               f"frame depth grew with the number of queries: {rs['max_depth']} at n={rs['n']}, "
                               f"{rb['max_depth']} at n={rb['n']}", replay=dict(n=rb["n"], **kw))
 
+    # ---- constructor pipeline: every documented option combination is accepted and answers ---------
+    res = tlc.run("BrownianCtor", timeout=600, workers=4, cfg_text=(
+        "SPECIFICATION Spec\nINVARIANT AcceptsExactlyDocumented\nINVARIANT RefusalsAreValueErrors\nINVARIANT Emit\n"
+        "PROPERTY Terminates\nCHECK_DEADLOCK FALSE\n"))
+    ctx.add_tlc(res, "BrownianCtor: documented option table = constructor pipeline; emits all configurations")
+    if not res.ok:
+        ctx.drift(f"BrownianCtor: {res.violated} violated in the specification")
+    rows = res.printed
+    rnd = random.Random(f"{ctx.seed}:ctor")
+    oks = [r for r in rows if r["outcome"] == "ok"]
+    bad = [r for r in rows if r["outcome"] != "ok"]
+    if quick:
+        oks = rnd.sample(oks, min(600, len(oks)))
+        bad = rnd.sample(bad, min(400, len(bad)))
+    for r in oks + bad:
+        got = P.ctor_outcome(r["cfg"])
+        c = r["cfg"]
+        ctx.case(("ctor", str(sorted(c.items()))), nontrivial=r["outcome"] == "ok", sample=dict(ctor=c, expected=r["outcome"], got=got))
+        if r["outcome"] == "ok" and got != "ok":
+            ctx.violation(dict(kind="ctor_valid_config_fails", got=got, halfway=c["halfway"], tol=c["tol"], cache=c["cache"],
+                               dt=c["dt"], order=c["order"]),
+                          f"documented configuration {c}: {got}", replay=dict(ctor=c))
+        elif r["outcome"] != "ok" and got == "ok":
+            ctx.drift(f"constructor accepts undocumented configuration {c}")
+        elif r["outcome"] != "ok" and got != r["outcome"]:
+            ctx.drift(f"constructor refuses {c} with {got}, documented {r['outcome']}")
+
     # ---- sdeint ------------------------------------------------------------------------------------
     for n in ([16000] if quick else [16000, 50000]):
         exc = sdeint_default_bm(n)
